@@ -152,6 +152,59 @@ theorem foldParts_textLine {d : Bytes} (h : textLine d = true) : foldParts d = (
   simp only
   rw [if_neg (by rw [Lemmas.Str.trimLeftSpace_of_zero ht.1]; simp)]
 
+/-! ### values of several lines in list fields -/
+
+theorem decodeValue_slice_congr (n : Nat) (e : Kind) (delim strip : Bytes) (old : Val)
+    {a b : Bytes} (h : Str.trimSet strip a = Str.trimSet strip b) :
+    decodeValue (n+1) (.slice e) delim strip old a = decodeValue (n+1) (.slice e) delim strip old b := by
+  rw [decodeValue.eq_def, decodeValue.eq_def]
+  simp only [h]
+
+theorem eq_snoc_of_hasSuffix_nl {x : Bytes} (h : Str.hasSuffix x [10] = true) :
+    ∃ y, x = y ++ [10] := by
+  unfold Str.hasSuffix at h
+  cases hr : x.reverse with
+  | nil => rw [hr] at h; simp [Str.isPrefix] at h
+  | cons c t =>
+    rw [hr] at h
+    simp only [List.reverse_cons, List.reverse_nil, List.nil_append, Str.isPrefix, Bool.and_true,
+      beq_iff_eq] at h
+    refine ⟨t.reverse, ?_⟩
+    have := congrArg List.reverse hr
+    rw [List.reverse_reverse] at this
+    rw [this, ← h]
+    simp
+
+theorem trimSet_trimSuffix_nl {strip : Bytes} (h : strip.contains 10 = true) (x : Bytes) :
+    Str.trimSet strip (Str.trimSuffix x [10]) = Str.trimSet strip x := by
+  by_cases hs : Str.hasSuffix x [10] = true
+  · obtain ⟨y, rfl⟩ := eq_snoc_of_hasSuffix_nl hs
+    rw [trimSuffix_snoc_nl, Lemmas.Changelog.trimSet_snoc_mem _ h]
+  · unfold Str.trimSuffix
+    rw [if_neg hs]
+
+/-- what `textField` gives: the written form is read back (`PartsOK`), and what is read back
+    decodes like the value itself -/
+theorem textField_spec {f : FieldDesc} {d : Bytes} (h : textField f d = true) :
+    PartsOK (foldParts d).1 (foldParts d).2 ∧
+    decodeValue 16 f.kind f.delim f.strip .zero (build (foldParts d).1 (foldParts d).2) =
+      decodeValue 16 f.kind f.delim f.strip .zero d := by
+  simp only [textField, Bool.or_eq_true, Bool.and_eq_true] at h
+  rcases h with h | ⟨⟨hk, hs⟩, htv⟩
+  · rw [foldParts_textLine h]
+    obtain ⟨h1, h2⟩ := textLine_spec h
+    exact ⟨⟨h1, h2, by simp⟩, rfl⟩
+  · refine ⟨partsOK_of_textValue htv, ?_⟩
+    cases hkind : f.kind with
+    | slice e =>
+      apply decodeValue_slice_congr
+      have hnl : noLeadingEmptyLine d = true := by
+        simp only [textValue, Bool.and_eq_true] at htv
+        exact htv.2
+      have := trimSuffix_eq_of_valueLines (valueLines_reread hnl)
+      rw [← trimSet_trimSuffix_nl hs, this, trimSet_trimSuffix_nl hs]
+    | _ => rw [hkind] at hk; simp [isSlice] at hk
+
 /-! ### through the text -/
 
 theorem lookup_map_none {ks : List Bytes} {k : Bytes} (hk : k ∉ ks) (g : Bytes → Bytes) :
@@ -163,22 +216,14 @@ theorem lookup_map_none {ks : List Bytes} {k : Bytes} (hk : k ∉ ks) (g : Bytes
     rw [if_neg (fun e => hk (by rw [e]; exact List.mem_cons_self))]
     exact ih (fun h => hk (List.mem_cons_of_mem _ h))
 
-theorem lookup_reread {p : Paragraph} (hinv : ∀ k, k ∈ p.order ↔ (lookup k p.values).isSome = true)
-    (htext : ∀ k ∈ p.order, textLine (p.get k) = true) (k : Bytes) :
-    lookup k (reread p).values = lookup k p.values := by
+theorem lookup_reread (p : Paragraph) (k : Bytes) :
+    lookup k (reread p).values =
+      if k ∈ p.order then some (build (foldParts (p.get k)).1 (foldParts (p.get k)).2) else none := by
   unfold reread
   by_cases hk : k ∈ p.order
-  · rw [lookup_map_self hk (fun k => build (foldParts (p.get k)).1 (foldParts (p.get k)).2),
-      foldParts_textLine (htext k hk), build_nil]
-    have := (hinv k).mp hk
-    unfold Paragraph.get
-    cases hl : lookup k p.values with
-    | none => rw [hl] at this; cases this
-    | some x => rfl
-  · rw [lookup_map_none hk]
-    cases hl : lookup k p.values with
-    | none => rfl
-    | some x => exact absurd ((hinv k).mpr (by simp [hl])) hk
+  · rw [if_pos hk,
+      lookup_map_self hk (fun k => build (foldParts (p.get k)).1 (foldParts (p.get k)).2)]
+  · rw [if_neg hk, lookup_map_none hk]
 
 theorem unmarshal_write {p : Paragraph} (h : Rereadable p) (s : Schema) :
     unmarshal s p.write = decodeStruct (reread p) s [] := by
@@ -203,7 +248,8 @@ theorem someWritten_spec {s : Schema} {r : List Val} (h : someWritten s r = true
 
 theorem textRec_spec {s : Schema} {r : List Val} (h : textRec s r = true) :
     ∀ fv ∈ s.zip r, Spec.Deb822.wfName fv.1.key = true ∧ fv.1.multiline = false ∧
-      ∀ data, marshalValue 16 fv.1.kind fv.1.delim fv.2 = .ok data → textLine data = true := by
+      ∀ data, marshalValue 16 fv.1.kind fv.1.delim fv.2 = .ok data →
+        textField fv.1 data = true := by
   simp only [textRec, List.all_eq_true, Bool.and_eq_true, Bool.not_eq_eq_eq_not, Bool.not_true] at h
   intro fv hfv
   obtain ⟨⟨h1, h2⟩, h3⟩ := h fv hfv
@@ -221,21 +267,17 @@ theorem roundtrip_text {s : Schema} {r : List Val} (hs : flatSchema s = true) (h
   have htr := textRec_spec ht
   have hcount : ∀ k, (knownKeys s).count k ≤ 1 := fun k =>
     Nat.le_trans (count_knownKeys_le s k) (List.nodup_iff_count.mp hnd k)
-  -- every listed field holds a text line under a well-formed name
-  have hfield : ∀ k ∈ p.order, Spec.Deb822.wfName k = true ∧ textLine (p.get k) = true := by
-    intro k hk
-    obtain ⟨⟨f, v⟩, hfv, data, hkey, hm, hc⟩ := hpord k hk
-    obtain ⟨hname, hml, htl⟩ := htr _ hfv
+  -- a written field holds its rendering, which is text
+  have hwritten : ∀ fv ∈ s.zip r, ∀ data, marshalValue 16 fv.1.kind fv.1.delim fv.2 = .ok data →
+      (data.isEmpty && !fv.1.required) = false →
+      lookup fv.1.key p.values = some data ∧ textField fv.1 data = true := by
+    rintro ⟨f, v⟩ hfv data hm hc
+    obtain ⟨_, hml, htl⟩ := htr _ hfv
     obtain ⟨ha, hk45, _⟩ := flatField_spec (hflat f (mem_zip_left hfv))
     have hl := lookup_convert hp hfv ha hk45 hm (hcount _)
-    simp only at hkey hc hml
+    simp only at hc hml
     rw [if_neg (by simp [hc]), hml] at hl
-    simp only [Bool.false_eq_true, if_false] at hl
-    subst hkey
-    refine ⟨hname, ?_⟩
-    unfold Paragraph.get
-    rw [hl]
-    exact htl data hm
+    exact ⟨hl, htl data hm⟩
   -- the paragraph is not empty
   have hpne : p.order ≠ [] := by
     obtain ⟨⟨f, v⟩, hfv, ha, hk45, data, hm, hw⟩ := someWritten_spec hne
@@ -245,18 +287,44 @@ theorem roundtrip_text {s : Schema} {r : List Val} (hs : flatSchema s = true) (h
     cases this
   have hrr : Rereadable p := by
     refine ⟨hpne, hpnd, fun k hk => ?_⟩
-    obtain ⟨hname, htl⟩ := hfield k hk
-    rw [foldParts_textLine htl]
-    obtain ⟨h1, h2⟩ := textLine_spec htl
-    exact ⟨keyOK_of_wfName hname, h1, h2, by simp⟩
+    obtain ⟨fv, hfv, data, hkey, hm, hc⟩ := hpord k hk
+    obtain ⟨hl, htf⟩ := hwritten fv hfv data hm hc
+    have hget : p.get k = data := by
+      unfold Paragraph.get
+      rw [← hkey, hl]
+      rfl
+    rw [hget]
+    exact ⟨keyOK_of_wfName (hkey ▸ (htr fv hfv).1), (textField_spec htf).1⟩
   refine ⟨p.write, ?_⟩
   have hfok := fieldOK_of_convert hs hr hp
   have hfok' : ∀ fv ∈ s.zip r, FieldOK (reread p) fv.1 fv.2 := by
-    intro fv hfv
-    have := hfok fv hfv
-    unfold FieldOK at this ⊢
-    rw [lookup_reread (convert_inv hp) (fun k hk => (hfield k hk).2)]
-    exact this
+    rintro ⟨f, v⟩ hfv
+    obtain ⟨v', hcv, hv'⟩ := hfok _ hfv
+    refine ⟨v', hcv, ?_⟩
+    rw [lookup_reread]
+    simp only at hv' ⊢
+    obtain ⟨ha, hk45, _⟩ := flatField_spec (hflat f (mem_zip_left hfv))
+    obtain ⟨data, hm⟩ := marshal_ok_of_convert hp hfv ha hk45
+    by_cases hc : (data.isEmpty && !f.required) = true
+    · have hl := lookup_convert hp hfv ha hk45 hm (hcount _)
+      rw [if_pos hc] at hl
+      have hnot : f.key ∉ p.order := by
+        rw [convert_inv hp, hl]; simp
+      rw [if_neg hnot]
+      rw [hl] at hv'
+      exact hv'
+    · obtain ⟨hl, htf⟩ := hwritten (f, v) hfv data hm (by simpa using hc)
+      have hin : f.key ∈ p.order := by
+        rw [convert_inv hp, hl]; rfl
+      have hget : p.get f.key = data := by
+        unfold Paragraph.get
+        rw [hl]
+        rfl
+      rw [if_pos hin, hget]
+      simp only [hl] at hv'
+      simp only
+      rw [(textField_spec htf).2]
+      exact hv'
   obtain ⟨r', hr', hsame⟩ := decode_all (reread p) s r 100000 hflat (wfRec_spec hr).1 hlen hfok'
   refine ⟨r', ?_, ?_, hsame⟩
   · unfold marshal; rw [hp]; rfl
